@@ -76,7 +76,7 @@ func CheckC12(t Target, src *choice.Src, st *Stats) *Violation {
 		w = GenWorld(src, WOpts{Flags: true, LayoutFault: true, Defects: src.Bool("def")})
 		n := src.Range("nf", 1, 3)
 		for i := 0; i < n; i++ {
-			ok := choice.Pick(src, "fop", []string{"open-r", "read", "open-w", "write", "close-w", "close-r"})
+			ok := choice.Pick(src, "fop", []string{"open-r", "read", "open-w", "write", "close-w", "close-r", "stat", "stat", "rename", "create-temp"})
 			ks := faultKinds[ok]
 			w.Faults = append(w.Faults, simrt.Fault{At: src.Draw("fat", 24), OpKind: ok, Kind: choice.Pick(src, "fk", ks), Arg: src.Draw("farg", 4000)})
 		}
